@@ -667,6 +667,13 @@ end_module:
 
     /* TODO: double scan_data::time */
     time_calc = time + m->time_factor * frame_count * base_time / bpm;
+    /* The IT tempo slide bookkeeping removes "one row at the final BPM" in
+     * advance; when the speed changes on the same row the total can end up
+     * below zero. A negative value means "no valid order" to the caller and
+     * would make the load fail although rows have been played. */
+    if (time_calc < 0) {
+	time_calc = 0;
+    }
     return time_calc > (double)INT_MAX ? INT_MAX : (int)time_calc;
 }
 
